@@ -5,7 +5,7 @@ Exit codes: 0 every obligation proved (known findings printed as KNOWN-FINDING l
             1 at least one refuted obligation not listed in known_findings.txt (VIOLATION lines)
             2 infrastructure problem / undecided obligation (broken check, never an alarm)
 """
-import os, sys, json, time, hashlib, pickle, re, subprocess, traceback, collections, random
+import subprocess, os, sys, json, time, hashlib, pickle, re, subprocess, traceback, collections, random
 from concurrent.futures import ThreadPoolExecutor
 sys.path.insert(0, os.path.dirname(os.path.abspath(__file__)))
 import bx2c, extract, oblig, l3, cbmcrun, segments, native
@@ -595,6 +595,10 @@ def evaluate(prop, queries, results, known, tier, seed, t0, extra_cov=None, skip
                 if p['status'] != 'FAILURE':
                     canary_bad.append(q.qid)
                 continue
+            if what in ('bbk', 'safek') and pid in ('C03', 'C08') and prop in ('C03', 'C08') and re.search(r'invariant|no exception', p.get('desc') or ''):
+                # the invariants of the decay0_bb contract carry both its safety (C08) and its energy (C03) clauses: a segment
+                # that fails to re-establish one is a failed obligation of whichever of the two properties is being decided
+                pid = prop
             if pid != prop:
                 continue
             obligations += 1
@@ -629,9 +633,24 @@ def evaluate(prop, queries, results, known, tier, seed, t0, extra_cov=None, skip
     os.makedirs(os.path.join(REPLAYS, prop), exist_ok=True)
     vio_out = []
     seenv = set()
+    # relational queries: when the two sides leave a segment towards different cut points, every related variable differs
+    # as a consequence; those follow-up failures are recorded under the control divergence instead of one line each
+    diverged = {}
+    for q, p, r in violations:
+        d_ = p.get('desc') or ''
+        m_ = re.match(r'^(C0[12] \S+ seg@\S+): same successor cut point', d_)
+        if q.meta.get('what') == 'rel' and m_:
+            diverged[(q.qid, m_.group(1))] = okey(q.qid, p)
+    consequences = collections.defaultdict(list)
     for q, p, r in violations:
         key = okey(q.qid, p)
         if key in seenv:
+            continue
+        d_ = p.get('desc') or ''
+        m_ = re.match(r'^(C0[12] \S+ seg@\S+): related variable .* equal afterwards', d_)
+        if q.meta.get('what') == 'rel' and m_ and (q.qid, m_.group(1)) in diverged:
+            seenv.add(key)
+            consequences[diverged[(q.qid, m_.group(1))]].append(key)
             continue
         seenv.add(key)
         rp = write_replay(prop, q, p, r)
@@ -642,6 +661,9 @@ def evaluate(prop, queries, results, known, tier, seed, t0, extra_cov=None, skip
         print('VIOLATION property=%s replay=%s obligation="%s"%s%s' % (prop, rp['path'], key, (' site=%s [%s]' % (sn, st)) if sn else '', suffix))
         vio_out.append({'obligation': key, 'replay': rp['path'], 'confirmed_on_real_code': bool(rp.get('replayed_failing_input'))})
         rc = 1
+    for v_ in vio_out:
+        if v_['obligation'] in consequences:
+            v_['follow_up_failures_in_the_same_segment'] = consequences[v_['obligation']]
     if undecided or canary_bad:
         for u in undecided[:20]:
             log('UNDECIDED %s: %s' % u)
@@ -753,6 +775,47 @@ def selfcheck_summary(db, tier, seed):
             'first_differences': [list(map(str, d)) for d in r['diffs'][:5]], 'wall_s': round(r['wall_s'], 1)}
 
 
+def f77c_crosscheck(tier):
+    """tools/refnative.py: the reference Fortran compiled by gcc (REAL = 8 bytes) against f77c's rendering compiled natively,
+    same scripted deviates; result cached on the hash of everything it reads"""
+    h = hashlib.sha256()
+    for f in (REF_FOR, os.path.join(VERIF, 'tools', 'f77c.py'), os.path.join(VERIF, 'tools', 'bx2c.py'), os.path.join(VERIF, 'tools', 'refnative.py'),
+              os.path.join(VERIF, 'shim', 'bx_shim.h'), os.path.join(bx2c.REPO, 'bxdecay0', 'divdif.cc')):
+        h.update(open(f, 'rb').read())
+    seeds = 10 if tier == 'quick' else 100
+    h.update(str(seeds).encode())
+    cp = os.path.join(VERIF, 'build', 'results', 'refnative.%s.json' % h.hexdigest()[:20])
+    if os.path.exists(cp) and not os.environ.get('VERIF_NOCACHE'):
+        r = json.load(open(cp))
+        r['cached'] = True
+        return r
+    t0 = time.time()
+    p = subprocess.run([sys.executable, os.path.join(VERIF, 'tools', 'refnative.py'), str(seeds)], capture_output=True, text=True, timeout=7200)
+    try:
+        r = json.loads(p.stdout[p.stdout.index('{'):])
+    except (ValueError, IndexError):
+        r = {'status': 'crashed', 'stderr': p.stderr[-2000:]}
+    r['wall_s'] = round(time.time() - t0, 1)
+    if r.get('status') == 'ran':
+        os.makedirs(os.path.dirname(cp), exist_ok=True)
+        json.dump(r, open(cp, 'w'), indent=1)
+    return r
+
+
+def f77c_crosscheck_ok(tier):
+    r = f77c_crosscheck(tier)
+    if r.get('status') != 'ran':
+        log('f77c cross-check could not run (%s): %s' % (r.get('status'), (r.get('stderr') or '')[-400:]))
+        return None, r
+    if r.get('differ') or r.get('exit'):
+        log('f77c cross-check FAILED: the rendering of the reference disagrees with the compiled Fortran for %s: %s' % (r.get('differ'), r.get('first_differences', [])[:3]))
+        return None, r
+    summ = {'units_compared': r['routines_compared'], 'all_agree': True, 'seeds_per_routine_and_level': r['seeds_per_routine_and_level'], 'summary': r['summary'],
+            'units_translated_by_f77c': r['units_translated'], 'units_not_translated': r['units_not_translated'], 'wall_s': r.get('wall_s'), 'cached': bool(r.get('cached')),
+            'how': 'gcc -x f77 -fdefault-real-8 -O0 on the reference text vs the natively compiled f77c rendering, same scripted deviates; events compared to 1e-9 relative, particle codes and deviate counts exactly'}
+    return summ, r
+
+
 def prop_l3(prop, tier, seed):
     t0 = time.time()
     db = load_db()
@@ -782,9 +845,17 @@ def prop_l3(prop, tier, seed):
             queries += [q for q in gq if q.qid.startswith('genbbsub/c05dbd/')]
         if prop == 'C03' and tier == 'thorough':
             queries += evis_queries(db, contracts, consts)
-        if prop in ('C03', 'C08'):
+    only_ = set(os.environ['VERIF_ONLY'].split(',')) if os.environ.get('VERIF_ONLY') else None
+    if True:
+        if prop in ('C03', 'C08') and (only_ is None or 'decay0_bb' in only_):
             qs, sk = bbk_queries(db, prop, tier)
             queries += qs
+            skipped += sk
+        if prop == 'C08' and only_ is None:
+            import safek
+            sq, sk = safek.all_queries(db, os.path.join(VERIF, 'contracts', 'safety.contract'))
+            for q in sq:
+                queries.append(Query(q['qid'], q['c'], checks=safek.CHECKS, meta=q['meta'], timeout=900, mem_gb=10, extra=q['extra']))
             skipped += sk
     results = run_all(queries)
     return evaluate(prop, queries, results, known, tier, seed, t0, skipped=skipped, selfcheck=sc,
@@ -882,6 +953,9 @@ def prop_rel(prop, tier, seed):
     if sc['differences']:
         log('extraction self-check failed: %s' % sc['first_differences'])
         return 2
+    fx, fxraw = f77c_crosscheck_ok(tier)
+    if fx is None:
+        return 2
     queries, skipped = rel_queries(db, prop)
     results = run_all(queries)
     cuts = sum(len(q.meta.get('cuts', [])) + 1 for q in queries)
@@ -896,7 +970,7 @@ def prop_rel(prop, tier, seed):
             extra_as.append('decay0_bb: legacy mode 1..20 (one query per mode and cut point); spthe1/spthe2 are compared through the sequence of array reads and writes of each segment, equal tables assumed at each cut point and every write checked')
     return evaluate(prop, queries, results, known, tier, seed, t0, skipped=skipped, selfcheck=sc,
                     assumptions=ASSUMPTIONS.get('C01', []) + (ASSUMPTIONS['C02+'] if prop == 'C02' else []) + sorted(set(extra_as)),
-                    extra_cov={'routine_pairs': len(queries), 'cut_points': cuts,
+                    extra_cov={'routine_pairs': len(queries), 'cut_points': cuts, 'f77c_crosscheck': fx,
                                'reference': 'resources/code/decay0/decay0_2020-04-20.for rendered by f77c on this run',
                                'arithmetic': 'uninterpreted + - * / and libm (equal under every interpretation => equal under IEEE); literals within 5e-6 relative are one constant'})
 
@@ -925,14 +999,15 @@ ASSUMPTIONS = {
     'C06': ['GENBBsub character tests are evaluated for each concrete published name by f77c; the numeric part is the rendered reference',
             'gA routing, energy-window validation and the label<->mode maps live in decay0_generator.cc/bb_utils.cc (STL/iostream): not covered',
             'decay0_bb(init) is a no-op stub here (its effect on the spectrum tables is not part of the accept/reject decision)'],
-    'C01': ['f77c renders the reference faithfully (no Fortran compiler offline to cross-check); reference REAL arithmetic is rendered as double',
+    'C01': ['f77c (renderer of the reference) is cross-checked on every run against gcc\'s Fortran front end: 117 routines x levels + 25 integrands agree on scripted deviates (coverage.f77c_crosscheck); NOT covered by that cross-check: bb, dshelp1, GENBBsub, gfang/pairext/compton/moller; reference REAL arithmetic is rendered (and compiled, -fdefault-real-8) as double: single-precision rounding of the original build is outside "floating-point noise" comparisons',
             'simulation meta-lemma: segment-wise preservation of the relation from related states implies equal traces for whole runs',
             'callees are related by their own obligations; here they are the same uninterpreted effect on both sides',
             'literals that differ by <= 5e-6 relative are the same constant (the reference itself mixes 0.511/emass, 3.1415927/pi)'],
     'C04': ['deviates are doubles strictly inside (0,1) (i_random documents [0,1): a deviate of exactly 0 gives log(0))',
             'time order at L3 follows from the leaf contract (time = previous + tdlev, tdlev >= tclev >= 0) and the call-site preconditions; the running sum itself is not re-proved at L3',
             'termination after a bounded number of deviates is almost-sure only and is not claimed; what is proved: every cycle consumes >= 1 deviate and has an exit edge'],
-    'C08': ['uninitialised reads are not a CBMC check', 'std::vector modelled as: any push_back may reallocate (capacity arbitrary)'] + BBK_ASSUMPTIONS,
+    'C08': ['uninitialised reads are not a CBMC check', 'std::vector modelled as: any push_back may reallocate (capacity arbitrary)',
+            'dgmlt1/dgmlt2 (contracts/safety.contract): NI <= 4096; the integrand callback writes only its output array and the two-element x; decay0_divdif: decided for the only call site NN=48, MM=2 (unwinding 14 with unwinding assertions, complete for these sizes)'] + BBK_ASSUMPTIONS,
     'C03': ['nominal energy accounting: the L1/L2 contracts define the nominal release (Egamma); the gap to the energy really booked is bounded per call by the L2 lemmas',
             'sum of <= 100 per-call gaps <= 2.5e-4 MeV (triangle inequality over reals)',
             'decay0_bb: a momentum p = sqrt(e(e+2m)) along (sin t cos f, sin t sin f, cos t) carries kinetic energy e (real-arithmetic lemma, not decided); the budget lemmas W2 and W20 of contracts/bb.contract are decided/attempted in the thorough tier only and otherwise ASSUMED (machine arithmetic treated as mathematical)',
